@@ -638,8 +638,12 @@ class C15(core.Check):
                 attr = rd.rattr()
                 sb = rd.rrows()
                 known = rd.n()
+                replies = []
+                for _ in range(rd.n()):
+                    kd, ra_, rb_ = rd.n(), rd.n(), rd.n()
+                    replies.append("\x1b[0n" if kd == 5 else "\x1b[%d;%dR" % (ra_, rb_))
                 self._ref_stash = {"key": core.h(case), "n": n, "g": g, "x": x, "y": y, "pend": pend, "top": top, "bot": bot,
-                                   "attr": attr, "sb": sb, "known": known}
+                                   "attr": attr, "sb": sb, "known": known, "replies": replies}
             return {"steps": steps, "final": f, "chunk_same": True}
         except IndexError:
             return {"malformed": ints[:30]}
@@ -766,8 +770,8 @@ class C15(core.Check):
         # the extracted Coq reference must tell the same story as this one
         st = self._ref_stash
         if st and st.get("key") == core.h(case):
-            mine = [n, r.g, r.x, r.y, int(r.pending), r.top, r.bot, r.sb, int(r.sb_known)]
-            coq = [st["n"], st["g"], st["x"], st["y"], st["pend"], st["top"], st["bot"], st["sb"], st["known"]]
+            mine = [n, r.g, r.x, r.y, int(r.pending), r.top, r.bot, r.sb, int(r.sb_known), r.replies]
+            coq = [st["n"], st["g"], st["x"], st["y"], st["pend"], st["top"], st["bot"], st["sb"], st["known"], st["replies"]]
             if core.canon(mine) != core.canon(coq):
                 msgs.append("reference models disagree: Model/VT100Ref.v (extracted) and the Python reference VT100")
             self._ref_stash = {}
@@ -837,6 +841,61 @@ class C15(core.Check):
         finally:
             urwid.set_encoding("utf-8")
         return "vt100[?]: " + final_diff + " (no single command shows the difference)"
+
+    # ---------- the AttrSpec abstraction of the model, swept against the real AttrSpec ----------
+    def extra_checks(self, tier, rng, ev):
+        """Model/VTerm.v: mk_attrspec claims that vterm.py reads back from the AttrSpec it builds exactly the colour
+        numbers it put in (derived .colors: 1 when both colours are default), for every colour number that fits the
+        depth.  Checked here on the real sgi_to_attrspec/AttrSpec: complete for depths 1, 16 and 256 (thorough; the
+        quick tier takes all values of one side against a few of the other), boundary + random values at 2**24."""
+        import urwid
+        from urwid import vterm
+        urwid.set_encoding("utf-8")
+        t = vterm.TermCanvas(2, 1, DummyWidget(vterm))
+        names = ["bold", "underline", "blink", "standout"]
+        out = []
+        n = 0
+
+        def one(fg, bg, colors, flags):
+            nonlocal n
+            n += 1
+            attrs = {names[i] for i in range(4) if flags >> i & 1}
+            try:
+                a = t.sgi_to_attrspec([], fg, bg, set(attrs), colors)
+                got = attr_obs(a)
+            except Exception as e:          # noqa: BLE001
+                got = type(e).__name__
+            f2 = fg + 8 if (fg is not None and flags & 1 and colors == 16 and fg < 8) else fg
+            if f2 is None and bg is None and not flags:
+                want = None
+            else:
+                want = [f2, bg, 1 if (f2 is None and bg is None) else colors] + [flags >> i & 1 for i in range(4)]
+            if got != want and len(out) < 5:
+                out.append(({"kind": "attrspec", "fg": fg, "bg": bg, "colors": colors, "flags": flags},
+                            f"AttrSpec abstraction: sgi_to_attrspec([], {fg}, {bg}, {sorted(attrs)}, {colors}) reads back {got}, the model says {want}"))
+        for flags in range(16):
+            one(None, None, 1, flags)
+            for fg in [None] + list(range(16)):
+                for bg in [None] + list(range(16)):
+                    if not (flags & 1 and fg is not None and fg >= 8):      # bold never meets an unbrightened fg >= 8 at 16 colours
+                        one(fg, bg, 16, flags)
+        few = [None, 0, 7, 8, 15, 16, 231, 232, 255]
+        all256 = [None] + list(range(256))
+        for flags in (0, 15):
+            for fg in all256:
+                for bg in (all256 if tier == "thorough" else few):
+                    one(fg, bg, 256, flags)
+            if tier != "thorough":
+                for bg in all256:
+                    for fg in few:
+                        one(fg, bg, 256, flags)
+        vals = [None, 0, 1, 255, 256, 65535, 65536, 2 ** 24 - 1] + [rng.randrange(2 ** 24) for _ in range(300)]
+        for fg in vals:
+            for bg in (None, 0, 1, 2 ** 24 - 1, rng.randrange(2 ** 24)):
+                one(fg, bg, 2 ** 24, rng.choice([0, 1, 5, 15]))
+                one(bg, fg, 2 ** 24, 0)
+        ev["dist"]["attrspec_abstraction_checked"] = n
+        return out
 
     def nontrivial(self, case, res):
         if "final" not in res:
